@@ -489,3 +489,118 @@ Proof.
     + rewrite Forall_forall in Hf. apply Hf in Hin. discriminate.
   - inversion E; subst. apply Hms. rewrite Forall_forall in H2. apply H2. exact Hin.
 Qed.
+
+(* ---------------------------------------------------------------------------------------------- *)
+(* C04 no_unused_left: the removal phase                                                           *)
+
+Definition shrink (b b' : iblock) : Prop := pos_of b' = pos_of b /\ incl (ib_imps b') (ib_imps b).
+
+Lemma covers_pos c l b b' : pos_of b' = pos_of b -> covers c l b' = covers c l b.
+Proof.
+  unfold pos_of, covers, last_lineno, true_last. intros E. inversion E as [[E1 E2 E3 E4 E5]].
+  rewrite E2, E4, E5. reflexivity.
+Qed.
+
+Lemma filter_nil_iff {A} (p : A -> bool) l : filter p l = [] <-> forall x, In x l -> p x = false.
+Proof.
+  induction l as [|a l IH]; cbn [filter]; [split; [intros _ x []|reflexivity]|].
+  destruct (p a) eqn:E; split.
+  - discriminate.
+  - intros H. specialize (H a (or_introl eq_refl)). congruence.
+  - intros H x [Hx|Hx]; [subst; exact E|]. apply IH; assumption.
+  - intros H. apply IH. intros x Hx. apply H. right. exact Hx.
+Qed.
+
+Lemma by_as_without l n j : by_as l n = [j] -> by_as (without_one l j) n = [].
+Proof.
+  intros H. unfold by_as. apply filter_nil_iff. intros x Hx.
+  destruct (str_eqb (i_as x) n) eqn:E; [|reflexivity]. exfalso.
+  unfold without_one in Hx. apply filter_In in Hx. destruct Hx as [Hx Hp].
+  assert (In x (by_as l n)) as Hin by (unfold by_as; apply filter_In; split; assumption).
+  rewrite H in Hin. destruct Hin as [Hin|[]]. subst x. rewrite imp_eqb_refl in Hp. discriminate.
+Qed.
+
+Lemma by_as_incl l l' n : incl l' l -> by_as l n = [] -> by_as l' n = [].
+Proof.
+  unfold by_as. intros Hi H. apply filter_nil_iff. intros x Hx.
+  rewrite filter_nil_iff in H. apply H. apply Hi. exact Hx.
+Qed.
+
+Lemma Forall2_shrink_refl l : Forall2 shrink l l.
+Proof. induction l; constructor; [split; [reflexivity|apply incl_refl]|assumption]. Qed.
+
+Lemma Forall2_shrink_map l (g : iblock -> iblock) :
+  (forall b, shrink b (g b)) -> Forall2 shrink l (map g l).
+Proof. intros Hg. induction l; cbn; constructor; auto. Qed.
+
+Lemma Forall2_shrink_trans l1 l2 l3 : Forall2 shrink l1 l2 -> Forall2 shrink l2 l3 -> Forall2 shrink l1 l3.
+Proof.
+  intros H. revert l3. induction H as [|a b l1 l2 Hab H IH]; intros l3 H3; inversion H3; subst; constructor.
+  - destruct Hab as [P1 I1]. match goal with Hs : shrink b _ |- _ => destruct Hs as [P2 I2] end.
+    split; [congruence|]. eapply incl_tran; eauto.
+  - apply IH. assumption.
+Qed.
+
+Lemma Forall2_in_r {A B} (P : A -> B -> Prop) l l' y :
+  Forall2 P l l' -> In y l' -> exists x, In x l /\ P x y.
+Proof.
+  intros H. induction H as [|a b l l' Hab H IH]; intros Hy; [destruct Hy|].
+  destruct Hy as [Hy|Hy]; [subst; exists a; split; [left; reflexivity|assumption]|].
+  destruct (IH Hy) as [x [Hx Hp]]. exists x. split; [right; assumption|assumption].
+Qed.
+
+Lemma remove_import_step c bs l imp bs' :
+  remove_import c bs (l, imp) = Ok bs' ->
+  Forall2 shrink (iblocks bs) (iblocks bs') /\
+  (forall b', In b' (iblocks bs') -> covers c l b' = true -> by_as (ib_imps b') (i_as imp) = []).
+Proof.
+  unfold remove_import, find_block. cbn [fst snd].
+  destruct (filter (covers c l) (iblocks bs)) as [|b [|b2 r]] eqn:F; try discriminate.
+  - intros E; inversion E; subst bs'. split; [apply Forall2_shrink_refl|].
+    intros b' Hb' Hc. rewrite filter_nil_iff in F. rewrite (F b' Hb') in Hc. discriminate.
+  - destruct (by_as (ib_imps b) (i_as imp)) as [|j [|]] eqn:B; try discriminate.
+    + intros E; inversion E; subst bs'. split; [apply Forall2_shrink_refl|].
+      intros b' Hb' Hc. assert (In b' [b]) as Hin by (rewrite <- F; apply filter_In; split; assumption).
+      destruct Hin as [Hin|[]]. subst b'. exact B.
+    + intros E; inversion E; subst bs'. clear E. rewrite iblocks_upd.
+      set (f := fun b' : iblock => set_imps b' (without_one (ib_imps b') j)).
+      assert (Hg : forall x, shrink x (upd1 (ib_id b) f x)).
+      { intros x. unfold upd1. destruct (ib_id x =? ib_id b).
+        - split; [reflexivity|]. intros i Hi. cbn in Hi. eapply without_one_incl. exact Hi.
+        - split; [reflexivity|apply incl_refl]. }
+      split; [apply Forall2_shrink_map; exact Hg|].
+      intros b' Hb' Hc. apply in_map_iff in Hb'. destruct Hb' as [x [Ex Hx]]. subst b'.
+      rewrite (covers_pos c l x _ (proj1 (Hg x))) in Hc.
+      assert (In x [b]) as Hin by (rewrite <- F; apply filter_In; split; assumption).
+      destruct Hin as [Hin|[]]. subst x. unfold upd1. rewrite Nat.eqb_refl. cbn. apply by_as_without. exact B.
+Qed.
+
+Lemma remove_import_shrink c bs u bs' : remove_import c bs u = Ok bs' -> Forall2 shrink (iblocks bs) (iblocks bs').
+Proof. destruct u as [l imp]. intros H. apply remove_import_step in H. tauto. Qed.
+
+Lemma remove_all_shrink c us : forall bs bs', remove_all c bs us = Ok bs' -> Forall2 shrink (iblocks bs) (iblocks bs').
+Proof.
+  induction us as [|u us IH]; intros bs bs' E; cbn [remove_all] in E.
+  - inversion E; subst. apply Forall2_shrink_refl.
+  - destruct (remove_import c bs u) as [bs1|] eqn:E1; [|discriminate].
+    eapply Forall2_shrink_trans; [eapply remove_import_shrink; exact E1|apply IH; exact E].
+Qed.
+
+(* C04 no_unused_left: when the removal phase does not raise, no import block that covers the line of a reported
+   unused import still holds an import with that local name.  (What stays behind: unused imports on lines that no
+   top-level import block covers - "not global" -, and what the analysis does not report: __future__ and star
+   imports; mandatory imports are added again afterwards; __init__.py / .pyflyby files skip the phase.) *)
+Theorem no_unused_left c us : forall bs bs',
+  remove_all c bs us = Ok bs' ->
+  forall l imp, In (l, imp) us ->
+  forall b', In b' (iblocks bs') -> covers c l b' = true -> by_as (ib_imps b') (i_as imp) = [].
+Proof.
+  induction us as [|u us IH]; intros bs bs' E l imp Hin b' Hb' Hc; [destruct Hin|].
+  cbn [remove_all] in E. destruct (remove_import c bs u) as [bs1|] eqn:E1; [|discriminate].
+  destruct Hin as [Hin|Hin].
+  - subst u. apply remove_import_step in E1. destruct E1 as [_ H1].
+    apply remove_all_shrink in E. destruct (Forall2_in_r _ _ _ _ E Hb') as [b1 [Hb1 [Hp Hi]]].
+    eapply by_as_incl; [exact Hi|]. apply H1; [exact Hb1|]. rewrite <- (covers_pos c l b1 b' Hp). exact Hc.
+  - eapply IH; eauto.
+Qed.
+
